@@ -305,4 +305,72 @@ theorem winv_run (max : Nat) (ops : List WOp) (h : Nat) (s : WState) (hi : WInv 
     rw [Nat.add_assoc] at this
     exact this
 
+/-! ### the bound for any shape of the wait -/
+
+def gopHb : GOp → Nat
+  | .op o => opHb o
+  | .fire _ => 0
+
+def ghbBytes (ops : List GOp) : Nat := (ops.map gopHb).sum
+
+theorem safe_case (sh : WaitShape) (hs : sh.safe = true) (w : Wake) (hc : w ≠ .closed) (hl : w ≠ .low)
+    (he : sh.exitOf w = some .proceed) : sh.loops = true := by
+  unfold WaitShape.exitOf at he
+  cases hf : sh.cases.find? (fun c => c.1 = w) with
+  | none => simp [hf] at he
+  | some c =>
+    simp only [hf, Option.map_some, Option.some.injEq] at he
+    have hmem := List.mem_of_find?_eq_some hf
+    have hw : c.1 = w := by simpa using List.find?_some hf
+    have := (List.all_eq_true.mp hs) c hmem
+    simp [hw, hc, hl, he] at this
+    exact this
+
+theorem ginv_step (sh : WaitShape) (hs : sh.safe = true) (max h : Nat) (s : WState) (op : GOp)
+    (hi : WInv max h s) : WInv max (h + gopHb op) (gstep sh max s op).1 := by
+  cases op with
+  | op o => exact winv_step max h s o hi
+  | fire w =>
+    obtain ⟨h1, h2, h3⟩ := hi
+    simp only [gstep, fire, gopHb, Nat.add_zero]
+    split
+    · exact ⟨h1, h2, h3⟩
+    · rename_i n hbl
+      obtain ⟨hn, htok⟩ := h3 n hbl
+      split
+      · exact ⟨h1, h2, h3⟩
+      · rename_i hw
+        have hc : w ≠ .closed := fun e => hw (Or.inl e)
+        have hl : w ≠ .low := fun e => hw (Or.inr e)
+        split
+        · exact ⟨h1, h2, h3⟩
+        · exact ⟨h1, h2, by simp⟩
+        · rename_i he
+          have hloop := safe_case sh hs w hc hl he
+          split
+          · exact ⟨h1, h2, h3⟩
+          · rename_i hgo
+            have hle : s.buffered + n ≤ max := by
+              rcases Nat.lt_or_ge max (s.buffered + n) with hlt | hge
+              · exact absurd ⟨hloop, hlt⟩ hgo
+              · exact hge
+            refine ⟨fun _ => by simp only; omega, by simp only; omega, by simp⟩
+
+theorem ginv_run (sh : WaitShape) (hs : sh.safe = true) (max : Nat) (ops : List GOp) (h : Nat) (s : WState)
+    (hi : WInv max h s) : WInv max (h + ghbBytes ops) (grun sh max ops s) := by
+  induction ops generalizing h s with
+  | nil => simpa [ghbBytes, grun] using hi
+  | cons o os ih =>
+    have := ih (h + gopHb o) (gstep sh max s o).1 (ginv_step sh hs max h s o hi)
+    simp only [ghbBytes, List.map_cons, List.sum_cons] at this ⊢
+    rw [Nat.add_assoc] at this
+    exact this
+
+/-- with the wait of the source, a wake-up source other than `Close` and the notification changes nothing -/
+theorem fire_source (max : Nat) (s : WState) (w : Wake) : fire sourceShape max s w = (s, .none) := by
+  unfold fire
+  cases s.blocked with
+  | none => rfl
+  | some n => cases w <;> simp [sourceShape, WaitShape.exitOf]
+
 end CJ.SctpConn
